@@ -8,7 +8,7 @@ creates; plus the (known-unprotected) expansion boundaries.
 from ..interp import NoReturn, Infeasible, NeedChoice, Ctx, Interp, Obj, Sym, View, Cell, Term, Arr, VarPlace, ElemPlace, _Ref, _Continue, _Break, _Return, is_opaque
 from ..build import AnalysisBroken
 from ..lib_c09 import PInterp, Agg, as_obj, chain, mk_tokens, mk_hideset, strip_ids, PARAM, OTHER, cls_of
-from ..lib_c09x import Desc, show, explore_expand, explore_subst, SubstPath
+from ..lib_c09x import Desc, show, explore_expand, explore_subst, SubstPath, explore_subst_shared
 
 PU = 'preprocess.c'
 TU = 'tokenize.c'
@@ -40,6 +40,7 @@ def run(P, rep, tier):
     part('R19.2', 'preprocess.c:copy_token', lambda: r_copy(P, rep))
     part('R19.2', 'preprocess.c:expand_macro', lambda: r_expand(P, rep, protect))
     part('R19.2', 'preprocess.c:subst', lambda: r_subst(P, rep, protect))
+    part('R19.2', 'preprocess.c:subst', lambda: r_subst_repeat(P, rep))
 
 
 # ---------------------------------------------------------------------- printer ---
@@ -270,7 +271,7 @@ def r_tokenize(P, rep):
     for g in FLAGS:
         if g not in u.globals:
             raise AnalysisBroken('the tokenizer no longer keeps the flag %s in a file-scope variable' % g)
-    rep.rule('R19.2', 'separator flags propagate: new_token records and clears at_bol/has_space; every white-space-skipping arm of tokenize (blank, newline, // and /* */ comments) sets one of them and only the newline arm may touch at_bol; a buffer starts at_bol; copy_token copies everything but `next`; the first token of every expansion, of every substituted argument, and every stringized/pasted/dynamic token takes the white-space flag of the token it stands for, other tokens keep theirs', floor=42)
+    rep.rule('R19.2', 'separator flags propagate: new_token records and clears at_bol/has_space; every white-space-skipping arm of tokenize (blank, newline, // and /* */ comments) sets one of them and only the newline arm may touch at_bol; a buffer starts at_bol; copy_token copies everything but `next`; the first token of every expansion, of every substituted argument, and every stringized/pasted/dynamic token takes the white-space flag of the token it stands for - separately for every occurrence of a parameter that is used more than once -, other tokens keep theirs', floor=49)
     A = Agg(rep)
     # -- new_token
     it = PInterp(P, u, {'track_stores': True, 'globals': {'current_file': lambda ctx: Obj('File', lazy=True, label='current_file')}})
@@ -672,6 +673,105 @@ def r_subst(P, rep, protect):
     for k, v in seen.items():
         if v == 0:
             rep.undecided('R19.2', '%s:%s:no-%s-case' % (PU, fn, k), 'no explored path of subst shows the "%s" case' % k, where=w0)
+
+
+def r_subst_repeat(P, rep):
+    """input/output relation of subst on replacement lists in which the SAME parameter occurs repeatedly (`x ... x`, `#x ... #x`):
+    every output token is attributed to the body token it stands for by position, and the token standing first for an
+    occurrence must carry the flags of that occurrence - not those of an earlier one (shared caches, flags stamped once)."""
+    u = P.unit(PU)
+    fn = 'subst'
+    rep.assumptions.append('a MacroArg is calloc\'ed by read_macro_args/read_macro_arg_one: members other than name/next/tok/is_va_args start as zero')
+    it, paths = explore_subst_shared(P, u, ['#', PARAM, OTHER])
+    A = Agg(rep)
+    w0 = '%s:%d' % (PU, u.fn(fn).line)
+    seen = {'parameter-occurrence-1': 0, 'parameter-occurrence-2': 0, 'stringized-occurrence-1': 0, 'stringized-occurrence-2': 0, 'plain-token': 0}
+    for ctx, out in paths:
+        if out[0] != 'ret':
+            continue
+        facts = {'path': ctx.trail}
+        body = []
+        for b in chain(it, ctx.body)[0]:
+            if _eof(it, u, b):
+                break
+            body.append(b)
+        if any(len(cls_of(b) or ()) != 1 for b in body):
+            continue
+        body_ids = set(id(b) for b in chain(it, ctx.body)[0])
+        outl = [o for o in (chain(it, out[1])[0] if out[1] is not None else []) if id(o) not in body_ids]
+        # expanded-argument lists
+        pos = {}
+        empty = False
+        for k, e in enumerate(x for x in ctx.events if x[0] == 'call' and x[1] == 'preprocess2'):
+            lst = [t for t in chain(it, e[4])[0]]
+            if not lst or _eof(it, u, lst[0]):
+                empty = True
+            for i, t in enumerate(lst):
+                if _eof(it, u, t):
+                    break
+                pos.setdefault(id(t), (k, i))
+        if empty:
+            continue        # an argument that expands to nothing leaves no token to attribute; the other paths cover the rule
+        facts['replacement list'] = [sorted(cls_of(b))[0] for b in body]
+        facts['output'] = [strip_ids(o.label or '?') for o in outl]
+        j = 0
+        i = 0
+        npar = nstr = 0
+        bad = None
+        while i < len(body) and bad is None:
+            b = body[i]
+            c = sorted(cls_of(b))[0]
+            if c == '#':
+                nstr += 1
+                if j >= len(outl) or i + 1 >= len(body):
+                    bad = 'no output token for "# parameter" pair %d' % nstr
+                    break
+                z = outl[j]
+                case = 'stringized-occurrence-%d' % min(nstr, 2)
+                seen[case] += 1
+                st = {f: _flag_state(it, z, b, f) for f in FLAGS}
+                A.ob('R19.2', '%s:%s:%s-has_space' % (PU, fn, case), st['has_space'] == 'inherited' and z.meta.get('copy_of') is None,
+                     'the token that stands for occurrence %d of `#x` in a replacement list using the same parameter repeatedly does not carry has_space of its own # token (it is %s): the spacing of another occurrence is printed' % (nstr, st['has_space']), w0, facts)
+                j += 1
+                i += 2
+            elif c == PARAM:
+                npar += 1
+                case = 'parameter-occurrence-%d' % min(npar, 2)
+                src = outl[j].meta.get('copy_of') if j < len(outl) else None
+                if src is None or pos.get(id(src), (None, None))[1] != 0:
+                    bad = 'occurrence %d of the parameter is not followed in the output by a copy of the first token of the macro-expanded argument' % npar
+                    break
+                z = outl[j]
+                seen[case] += 1
+                st = {f: _flag_state(it, z, b, f) for f in FLAGS}
+                A.ob('R19.2', '%s:%s:%s-first-token-has_space' % (PU, fn, case), st['has_space'] == 'inherited',
+                     'in a replacement list that uses the same parameter more than once, the first token substituted for occurrence %d does not carry has_space of THAT parameter token (it is %s, e.g. the flag of another occurrence or of a shared expanded list): `(x > y ? x - y : y - x)` with x = -3 prints `y --3`, `sizeof v` prints `sizeofword` - the -E output lexes to other tokens' % (npar, {'other': 'the flag of something else'}.get(st['has_space'], st['has_space'])), w0, facts)
+                A.ob('R19.2', '%s:%s:%s-first-token-at_bol' % (PU, fn, case), st['at_bol'] in ('inherited', 'true'),
+                     'the first token substituted for occurrence %d of a repeatedly used parameter does not carry at_bol of that parameter token (it is %s)' % (npar, st['at_bol']), w0, facts)
+                k0, i0 = pos[id(src)]
+                j += 1
+                while j < len(outl) and outl[j].meta.get('copy_of') is not None and pos.get(id(outl[j].meta['copy_of'])) == (k0, i0 + 1):
+                    i0 += 1
+                    j += 1
+                i += 1
+            else:
+                if j >= len(outl) or outl[j].meta.get('copy_of') is not b:
+                    bad = 'an ordinary replacement-list token is not copied to the output in its position'
+                    break
+                seen['plain-token'] += 1
+                stores = [e for e in ctx.events if e[0] == 'fstore' and e[2] in FLAGS and e[1] is outl[j]]
+                A.ob('R19.2', '%s:%s:plain-token-keeps-flags' % (PU, fn), not stores and all(_flag_state(it, outl[j], b, f) in ('own', 'inherited') for f in FLAGS),
+                     'an ordinary token of the replacement list is copied with changed separator flags', w0, facts)
+                j += 1
+                i += 1
+        if bad is None and j != len(outl):
+            bad = '%d output token(s) are not accounted for by the replacement list' % (len(outl) - j)
+        if bad is not None:
+            rep.undecided('R19.2', '%s:%s:repeated-parameter-shape' % (PU, fn), 'the output of subst cannot be attributed to the replacement list %s: %s' % (facts['replacement list'], bad), where=w0)
+    A.flush()
+    for k, v in seen.items():
+        if v == 0:
+            rep.undecided('R19.2', '%s:%s:no-%s-case' % (PU, fn, k), 'no explored path of subst over a replacement list with a repeated parameter shows the "%s" case' % k, where=w0)
 
 
 def _eof(it, u, t):
